@@ -378,14 +378,14 @@ theorem rtp_unk (E : Ext) (r : Rfn) : RTP E (.unk r) := by
     subst hct
     refine ⟨plainUnknown, by simp [marshalP, marshalUnknown, Ty.isDyn], .unk .unref, unmarshal_plain E .dyn, ?_⟩
     simp only [Approx]
-    exact weaker_dyn _ _ rfl
+    exact ⟨weaker_dyn _ _ rfl, Or.inl rfl⟩
   · have hd' : ct.isDyn = false := by simpa using hd
     have hr : rfnOK E ct r = true := by
       rcases hfit.2 with h | h
       · simp [hd'] at h
       · exact h
-    obtain ⟨it, hm, r'', hu, hw⟩ := unknown_rt E ct r hd' hr
-    exact ⟨it, by simpa [marshalP] using hm, .unk r'', hu, by simpa [Approx] using hw⟩
+    obtain ⟨it, hm, r'', hu, hw, hk⟩ := unknown_rt E ct r hd' hr
+    exact ⟨it, by simpa [marshalP] using hm, .unk r'', hu, by simp only [Approx]; exact ⟨hw, Or.inr hk.toKept⟩⟩
 
 theorem rtp_b (E : Ext) (b : Bool) : RTP E (.b b) := by
   intro ct vt _ _ _ hfit
